@@ -65,3 +65,40 @@ with g_unary (fuel : nat) (ts : list gtok) : option (pexpr * list gtok) :=
 (* a complete #if line *)
 Definition g_parse (fuel : nat) (ts : list gtok) : option pexpr :=
   match g_cond fuel ts with Some (e, []) => Some e | _ => None end.
+
+(* ---- unparsing with the minimal parentheses the grammar requires ----
+   The nonterminal chain of 6.5.3–6.5.15 numbered from the weakest binding: 1 conditional-expression,
+   2 logical-OR, 3 logical-AND, 4 inclusive-OR, 5 exclusive-OR, 6 AND, 7 equality, 8 relational, 9 shift,
+   10 additive, 11 multiplicative, 12 unary / primary. An operand is parenthesised exactly when its own
+   nonterminal is weaker than the one the production asks for at that position:
+     unary:        op cast/unary-expression                          operand at 12
+     binary L:     L-expression op (L+1)-expression (left assoc.)   left at L, right at L+1
+     conditional:  logical-OR-expression ? expression : conditional-expression      2, 1 (any), 1 *)
+Definition blevel (op : binop) : Z :=
+  match op with
+  | BLOr => 2 | BLAnd => 3 | BOr => 4 | BXor => 5 | BAnd => 6 | BEq | BNe => 7
+  | BLt | BGt | BLe | BGe => 8 | BShl | BShr => 9 | BAdd | BSub => 10 | BMul | BDiv | BMod => 11
+  end.
+Definition elevel (e : pexpr) : Z :=
+  match e with PLit _ _ | PUn _ _ => 12 | PBin op _ _ => blevel op | PCond _ _ _ => 1 end.
+Definition usym (op : unop) : string :=
+  match op with UNeg => "-" | UCompl => "~" | ULNot => "!" | UPlus => "+" end.
+Definition bsym (op : binop) : string :=
+  match op with
+  | BAdd => "+" | BSub => "-" | BMul => "*" | BDiv => "/" | BMod => "%" | BShl => "<<" | BShr => ">>"
+  | BAnd => "&" | BOr => "|" | BXor => "^" | BLt => "<" | BGt => ">" | BLe => "<=" | BGe => ">="
+  | BEq => "==" | BNe => "!=" | BLAnd => "&&" | BLOr => "||"
+  end.
+Definition paren (b : bool) (l : list gtok) : list gtok := if b then (GSym "(" :: l ++ [GSym ")"])%list else l.
+
+Fixpoint g_unparse (e : pexpr) : list gtok :=
+  match e with
+  | PLit u v => [GNum u v]
+  | PUn op a => GSym (usym op) :: paren (Z.ltb (elevel a) (12)) (g_unparse a)
+  | PBin op a b =>
+      (paren (Z.ltb (elevel a) (blevel op)) (g_unparse a) ++ GSym (bsym op) ::
+       paren (Z.ltb (elevel b) (blevel op + 1)) (g_unparse b))%list
+  | PCond c a b =>
+      (paren (Z.ltb (elevel c) (2)) (g_unparse c) ++ GSym "?" :: paren (Z.ltb (elevel a) (1)) (g_unparse a) ++
+       GSym ":" :: paren (Z.ltb (elevel b) (1)) (g_unparse b))%list
+  end.
